@@ -46,12 +46,16 @@ BASE_FRAMES = [
     ("generic", [0.7, -1.2, 2.0, 0.4, -0.6, 0.8]),
     ("near_pi", [-1.0, 0.5, 2.0] + [float(x) for x in (PI - 1e-3) * _AX]),
     ("far", [6.0, -8.0, 0.0, 0.3, 0.2, -0.5]),
+    # a frame 5e-5 away from "far": close enough to pass a sloppy equality test, far enough that skipping the change of
+    # frame is a 4e-5 relative error
+    ("far_twin", [6.0 - 3e-5, -8.0 + 4e-5, 0.0, 0.3, 0.2, -0.5]),
 ]
 THOROUGH_FRAMES = [
     ("rot_y_big", [0.0, 0.0, 0.0, 0.0, 2.5, 0.0]),
     ("small_rot", [0.3, 0.1, -0.2, 1e-3, 0.0, 0.0]),
     ("far_near_pi", [0.0, 6.0, 8.0] + [float(x) for x in (PI - 1e-3) * np.array([1.0, 1.0, 0.0]) / np.sqrt(2.0)]),
     ("generic2", [-2.0, 1.0, 0.5, -1.1, 0.9, 0.3]),
+    ("generic_rot_twin", [0.7, -1.2, 2.0, 0.4 * (1 + 4e-5), -0.6 * (1 + 4e-5), 0.8 * (1 + 4e-5)]),
 ]
 BASIS = [[1.0 if i == j else 0.0 for i in range(6)] for j in range(6)]
 GEN = [0.7, -1.3, 0.4, 2.1, -0.6, 1.9]
